@@ -41,6 +41,8 @@ func c06(w *core.World, r *core.Report) {
 
 	r.Rule("R06.12", "the start-up maintenance keeps the run id the checkpoint is stored under: the source, not the tool, decides whether a position of its previous history is continued", 2)
 	ruleStartupKeepsCheckpointId(w, r)
+	r.Rule("R06.13", "a full resynchronisation under a new id leaves no record of the old id that could be carried over: the old id's records are removed from every database before the 'none yet' marker is written", 1)
+	ruleDropRemovesEveryRecord(w, r)
 	r.Rule("R06.11", "the target's position is handed to the input under the id (and with the offset) it is stored under", 1)
 	ruleStartPointKeepsItsId(w, r)
 	r.Rule("R06.8", "the disk cache re-reads its directory whenever a run id is (re)confirmed", 2)
@@ -586,7 +588,11 @@ func ruleSyncMetaPaths(w *core.World, r *core.Report) {
 					return
 				}
 			}
-			// nothing written: only when there is nothing to carry over (no id yet, or the id does not change)
+			// nothing written: a failure that is reported (the caller does not go on to re-key) ...
+			if len(ret.Results) > 0 && !pathNil(p, ret.Results[len(ret.Results)-1]) {
+				return
+			}
+			// ... or nothing to carry over (no id yet, or the id does not change)
 			for _, fct := range p.Conds {
 				c, ok := core.FactCmp(fct)
 				if !ok || c.Op != token.EQL {
@@ -1203,4 +1209,78 @@ func ruleStartupKeepsCheckpointId(w *core.World, r *core.Report) {
 		}
 	}
 	r.Check(okCfg, "newOutput/output-run-id", f.Pos(), "the output must be configured with the run id the checkpoint is stored under (the start-up maintenance's answer): configured with the source's current id it reports the position under that id, and SetRunId never moves the checkpoint")
+}
+
+// ---------------------------------------------------------------- R06.13 DropStartPoint leaves nothing of the old id behind
+
+// callInvolves: the call's callee, or a closure handed to it, reaches target by static calls within the package.
+func callInvolves(ci ssa.CallInstruction, target string) bool {
+	s := core.ResolveCall(ci)
+	if s.Name == target || callsInto(s.Callee, target) {
+		return true
+	}
+	for _, a := range ci.Common().Args {
+		if mc, ok := core.Unwrap(a).(*ssa.MakeClosure); ok {
+			if g, isFn := mc.Fn.(*ssa.Function); isFn && callsInto(g, target) {
+				return true
+			}
+		}
+	}
+	return false
+}
+
+// ruleDropRemovesEveryRecord: on a stand-alone target the stream writes the
+// checkpoint into the database of the replayed commands, and GetCheckpoint
+// takes the highest offset of all databases. The "none yet" marker of
+// DropStartPoint goes through a fresh connection, into one database. A record
+// of the old id left in another database would still win when SetRunId carries
+// the position over to the new id: the new history would be continued from an
+// offset of the previous one (W30). With resumption enabled, the marker write
+// is reached only after the old id's records were removed (DelCheckpoint visits
+// every database), and a failed removal ends DropStartPoint with the error.
+func ruleDropRemovesEveryRecord(w *core.World, r *core.Report) {
+	f := fn(w, r, "(*syncer.RedisOutput).DropStartPoint")
+	if f == nil {
+		return
+	}
+	const del = "pkg/redis/checkpoint.DelCheckpoint"
+	var marker core.Site
+	for _, s := range core.Sites(f, false) {
+		if s.Instr.Parent() != f || !strings.HasSuffix(s.Name, "RedisOutput).setCheckpoint") {
+			continue
+		}
+		for _, a := range s.Args() {
+			if k, ok := core.ConstInt(a); ok && k == -1 {
+				marker = s
+			}
+		}
+	}
+	if marker.Instr == nil {
+		r.Unresolved("DropStartPoint/marker", "the 'none yet' marker write was not found")
+		return
+	}
+	var guard *ssa.If
+	for _, b := range f.Blocks {
+		iff, ok := b.Instrs[len(b.Instrs)-1].(*ssa.If)
+		if ok && core.IsFieldLoad(core.Unwrap(iff.Cond), "", "EnableResumeFromBreakPoint") && b.Dominates(marker.Instr.Block()) {
+			guard = iff
+		}
+	}
+	var drop core.Site
+	isDrop := func(in ssa.Instruction) bool {
+		ci, ok := in.(ssa.CallInstruction)
+		if !ok || in.Parent() != f || !callInvolves(ci, del) {
+			return false
+		}
+		drop = core.ResolveCall(ci)
+		return true
+	}
+	isMarker := func(in ssa.Instruction) bool { return in == marker.Instr }
+	start := f.Blocks[0]
+	if guard != nil {
+		start = guard.Block().Succs[0]
+	}
+	esc := core.PathFromBlock(start, isMarker, isDrop)
+	okFail := drop.Instr != nil && failureReturned(f, drop)
+	r.Check(esc == nil && okFail, "DropStartPoint/removes-every-record", marker.Pos(), "with resumption enabled the 'none yet' marker is written on a path that did not remove the old id's records from every database (or went on after failing to): a record left in another database of a stand-alone target still wins in GetCheckpoint when SetRunId carries the position over, and the new replication id inherits an offset of the previous history (path without removal: %v, failure ends the drop: %v)", esc != nil, okFail)
 }
